@@ -41,6 +41,7 @@ func runC20(c *Ctx) {
 	if w := c.fn("netutil/httputil", "Wrap"); w != nil {
 		c20Wrap(c, w)
 	}
+	poolNewFresh(c, "C20", []string{"syncutil", "netutil/httputil"}, 2)
 	mwWrap := c.fn("netutil/httputil", "LogMiddleware.Wrap")
 	if mwWrap == nil {
 		return
@@ -458,4 +459,54 @@ func c20Wrap(c *Ctx, f *ssa.Function) {
 func isIntegerType(t types.Type) bool {
 	b, ok := t.Underlying().(*types.Basic)
 	return ok && b.Info()&types.IsInteger != 0
+}
+
+// poolNewFresh: every constructor function handed to syncutil.NewPool returns
+// an object allocated by that very call — never a captured or package-level
+// one (all Gets on an empty pool would then receive the same object and two
+// concurrent users would share it).
+func poolNewFresh(c *Ctx, prop string, pkgs []string, floor int) {
+	c.L.Floor(prop+".pool.fresh-new", floor)
+	n := 0
+	for _, pkg := range pkgs {
+		for _, f := range c.P.Funcs(pkg) {
+			for _, ci := range core.AllCalls(f) {
+				cal := ci.Common().StaticCallee()
+				if cal != nil && cal.Origin() != nil {
+					cal = cal.Origin()
+				}
+				if cal == nil || cal.Name() != "NewPool" || cal.Pkg == nil || !strings.HasSuffix(cal.Pkg.Pkg.Path(), "/syncutil") || len(ci.Common().Args) != 1 {
+					continue
+				}
+				var nf *ssa.Function
+				switch x := ci.Common().Args[0].(type) {
+				case *ssa.MakeClosure:
+					nf, _ = x.Fn.(*ssa.Function)
+				case *ssa.Function:
+					nf = x
+				}
+				if nf == nil {
+					if f.Name() == "NewPool" {
+						continue
+					}
+					c.undecided(prop+".pool.fresh-new", f, "constructor passed to NewPool", ci, "not a function literal or named function")
+					continue
+				}
+				n++
+				bad := ""
+				for _, ret := range core.Returns(nf) {
+					v := core.Unwrap(ret.Results[0])
+					al, isAl := v.(*ssa.Alloc)
+					if !isAl || al.Parent() != nf {
+						bad = core.Describe(v)
+					}
+				}
+				c.check(bad == "", prop+".pool.fresh-new", nf, "the pool's New function returns an object it allocates itself", ci,
+					"returns "+bad+", which is shared by every call: two requests that both find the pool empty get the same object")
+			}
+		}
+	}
+	if n == 0 {
+		c.undecided(prop+".pool.fresh-new", nil, "NewPool call sites", nil, "none found")
+	}
 }
